@@ -53,5 +53,17 @@ doc = block("status", "### 14.3 Per-property status (from the committed evidence
 doc = block("seeded", "### 14.2 Seeded changes (independent sub-agents, property text only) and which checks catch them\n\n"
             "Each change compiles, keeps the 753 pinned tests passing, and comes with a demonstration that fails with it and "
             "passes without it (`seeded/<id>/{patch.diff,demo.py,meta.json}`); confirmed with `tools/try_seed.sh`.\n\n" + "\n".join(rows), doc)
+
+# ---- behaviour-preserving refactorings and what the checks said
+rrows = ["| refactoring | property | what was rewritten | check on the refactored tree |", "|---|---|---|---|"]
+for d in sorted(glob.glob(os.path.join(ROOT, "refactorings", "*"))):
+    try:
+        m = json.load(open(os.path.join(d, "meta.json")))
+    except Exception:
+        continue
+    clean = lambda s: str(s).replace("|", "/").replace("\n", " ")
+    rrows.append("| `refactorings/%s` | %s | %s | %s |" % (os.path.basename(d), m.get("property", "?"),
+                 clean(m.get("summary", ""))[:300], clean(m.get("check_outcome", "not yet tried"))[:300]))
+doc = block("refactorings", "\n".join(rrows), doc)
 open(os.path.join(ROOT, "DESIGN.md"), "w").write(doc)
 print("DESIGN.md tables regenerated: %d seeded changes" % (len(rows) - 2))
